@@ -49,6 +49,60 @@ def chunked_write(las, parts, evlr_at=None, close_early=False):
     return buf.getvalue()
 
 
+def compressed_layer(ck, n_cases):
+    import laspy
+    try:
+        import lazrs
+        from laspy import LazBackend
+        from laspy.laswriter import LasWriter
+    except ImportError:
+        ck.count("compressed_layer_skipped_no_backend_double")
+        return
+    from . import c01
+    for ci in range(n_cases):
+        lazrs.CHUNK_SIZE = ck.rng.choice([3, 5, 7])
+        minor, fmt = ck.rng.choice(fio.PAIRS)
+        n = ck.rng.choice([0, 1, 2, lazrs.CHUNK_SIZE, lazrs.CHUNK_SIZE + 1, 11, 16])
+        evlrs = fio.rand_vlrs(ck.rng, True, 2) if minor >= 4 and ck.rng.random() < 0.7 else None
+        las = fio.make_las(ck.rng, minor, fmt, n, vlrs=fio.rand_vlrs(ck.rng, False, 1), evlrs=evlrs)
+        parts = rand_partition(ck.rng, n)
+        bk = ck.rng.choice([LazBackend.Lazrs, LazBackend.LazrsParallel])
+        inp = {"kind": "compressed_chunked", "minor": minor, "fmt": fmt, "n": n, "parts": list(parts), "chunk_size": lazrs.CHUNK_SIZE,
+               "backend": bk.name, "evlrs": None if evlrs is None else len(evlrs)}
+        ck.case(("c04laz", minor, fmt, n, tuple(parts), lazrs.CHUNK_SIZE, bk.name, las.points.array.tobytes()), nontrivial=n > 0)
+        ck.count("compressed_chunked")
+        try:
+            one = io.BytesIO()
+            las.write(one, do_compress=True, laz_backend=bk)
+            buf = io.BytesIO()
+            w = LasWriter(buf, las.header, do_compress=True, laz_backend=bk, closefd=False)
+            pos = 0
+            for p in parts:
+                w.write_points(las.points[pos:pos + p])
+                pos += p
+            if minor >= 4 and las.evlrs is not None:
+                w.write_evlrs(las.evlrs)
+            w.close()
+            plain = io.BytesIO()
+            las.write(plain)
+            a = c01.canon_read(laspy.read(io.BytesIO(buf.getvalue()), laz_backend=bk))
+            b = c01.canon_read(laspy.read(io.BytesIO(one.getvalue()), laz_backend=bk))
+            c = c01.canon_read(laspy.read(io.BytesIO(plain.getvalue()))).split(" ")
+        except Exception as e:
+            ck.fail(f"compressed chunked/one-shot session raised {type(e).__name__}: {e}", inp)
+            continue
+        if a != b:
+            k0 = next((i for i in range(min(len(a), len(b))) if a[i] != b[i]), -1)
+            ck.fail(f"compressed: the chunked session {parts} reads differently from the one-shot file (char {k0}: ...{a[max(0, k0 - 20):k0 + 30]} vs ...{b[max(0, k0 - 20):k0 + 30]})", inp)
+        a2 = a.split(" ")
+        a2[10] = str(int(a2[10]) & 0x3F)
+        a2[16] = c[16] = "EVLRSTART"
+        if a2 != c:
+            k0 = next((i for i in range(min(len(a2), len(c))) if a2[i] != c[i]), -1)
+            ck.fail(f"compressed chunked session {parts}: what is read back differs from the data written (field #{k0}: {a2[k0][:60]} vs {c[k0][:60]})", inp)
+    lazrs.CHUNK_SIZE = 5
+
+
 def run(ck):
     logging.getLogger("laspy").setLevel(logging.CRITICAL)
     import laspy
@@ -126,6 +180,8 @@ def run(ck):
             if chunked != one.getvalue():
                 k0 = next((i for i in range(min(len(chunked), len(one.getvalue()))) if chunked[i] != one.getvalue()[i]), -1)
                 ck.fail(f"chunked file {parts} differs from the one-shot file (first difference at byte {k0}; sizes {len(chunked)}/{len(one.getvalue())})", inp)
+    # ---- compressed: chunked and one-shot sessions give an equal LasData, equal to the data written (backend double)
+    compressed_layer(ck, 30 if q else 600)
     # ---- late writes and wrong formats
     for _ in range(60 if q else 800):
         minor, fmt = ck.rng.choice(fio.PAIRS)
